@@ -97,6 +97,7 @@ func (la *ShareAvailability) SharesAvailable(ctx context.Context, header *header
 
 	key := datastoreKeyForRoot(dah)
 	samples := &SamplingResult{}
+	freshlyDrawn := false
 
 	// Attempt to load previous sampling results
 	la.dsLk.RLock()
@@ -108,6 +109,7 @@ func (la *ShareAvailability) SharesAvailable(ctx context.Context, header *header
 		}
 		// No previous results; create new samples
 		samples = NewSamplingResult(len(dah.RowRoots), int(la.params.SampleAmount))
+		freshlyDrawn = true
 	} else {
 		err = json.Unmarshal(data, samples)
 		if err != nil {
@@ -142,6 +144,19 @@ func (la *ShareAvailability) SharesAvailable(ctx context.Context, header *header
 
 	smpls, errGetSamples := la.getter.GetSamples(samplingCtx, header, idxs)
 	if len(smpls) == 0 {
+		if freshlyDrawn {
+			// nothing was retrieved, but the drawn coordinates have to stay the ones to be sampled:
+			// drawing a new set on every retry would let the samples drift towards whatever part of
+			// the square happens to be served.
+			if drawnData, err := json.Marshal(samples); err == nil {
+				la.dsLk.Lock()
+				err = la.ds.Put(ctx, key, drawnData)
+				la.dsLk.Unlock()
+				if err != nil {
+					log.Errorw("storing drawn samples", "height", header.Height(), "err", err)
+				}
+			}
+		}
 		return share.ErrNotAvailable
 	}
 
